@@ -15,7 +15,15 @@ def reduce_call(o, size=None, ua=None):
         v = out[1]
         if not (isinstance(v, tuple) and len(v) == 2 and isinstance(v[0], str) and all(isinstance(a, str) for a in v[1])):
             return ("bad", v)
-        return ("ok", v[0], list(v[1]))
+        res = ("ok", v[0], list(v[1]))
+        # the caller owns the returned alphabet list: editing it must not reach later calls
+        try:
+            if isinstance(v[1], list) and v[1]:
+                del v[1][0]
+                v[1].append("Z")
+        except Exception:
+            pass
+        return res
     return out
 
 
@@ -130,9 +138,12 @@ def run(ctx):
                 ctx.violation("alphabet-representatives", {"size": size, "seq": a}, expected=ra[2], actual=rab[2])
             tid += 1
             trs.append({"tid": tid, "seq": list(a + b), "ev": [{"q": "reduce", "size": size, "exc": False, "rs": list(rab[1])}]})
-        # user alphabets
+        # user alphabets: several different ones on the same object, between predefined sizes
+        oa = lc.SP(a)
         for kind, ua in random_user_alphabets(ctx.rng):
-            out = reduce_call(lc.SP(a), ua=ua)
+            if ctx.rng.random() < 0.3:
+                reduce_call(oa, ctx.rng.choice(SIZES))
+            out = reduce_call(oa, ua=ua)
             ctx.evaluations += 1
             e = {"q": "userreduce", "isdict": True, "ua": ua_json(ua), "kind": kind, "exc": out[0] != "ok", "rs": [], "alphabet": []}
             if out[0] == "ok":
